@@ -199,6 +199,12 @@ class KeyEval:
                 raise Raised(self.cur_exc, s)
             e = s.exc.func if isinstance(s.exc, ast.Call) else s.exc
             name = e.id if isinstance(e, ast.Name) else (e.attr if isinstance(e, ast.Attribute) else "?")
+            mod_ = getattr(self, "module", None) or getattr(getattr(self, "fn", None), "module", None)
+            if mod_ is not None and isinstance(e, ast.Name) and name in mod_.functions:
+                # the exception is built by a module-level helper: the class its returns construct
+                name = raised_class_name(s.exc, mod_)
+                if name is None:
+                    raise Unsupported("raise of %s(...) at line %d: what the helper returns is not one exception class" % (e.id, s.lineno))
             if isinstance(s.exc, ast.Call):
                 # the arguments of the exception are evaluated first: building the message may itself raise
                 for a in list(s.exc.args) + [k.value for k in s.exc.keywords]:
@@ -570,6 +576,25 @@ class KeyEval:
                     return bool(v.pat) and all(s in WS for s in v.pat)
             raise Unsupported("method call %s at line %d" % (node_src(e), e.lineno))
         raise Unsupported("call %s at line %d" % (node_src(e), e.lineno))
+
+
+def raised_class_name(exc_expr, module):
+    """The class a `raise <expr>` raises, by name.  `raise Helper(...)` where Helper is a module-level *function* that
+    builds the exception: the class all of its return statements construct (None if they do not agree)."""
+    e = exc_expr.func if isinstance(exc_expr, ast.Call) else exc_expr
+    name = e.id if isinstance(e, ast.Name) else (e.attr if isinstance(e, ast.Attribute) else "?")
+    fn = module.functions.get(name) if module is not None and isinstance(e, ast.Name) else None
+    if fn is None:
+        return name
+    built = set()
+    for n in ast.walk(fn.node):
+        if isinstance(n, ast.Return) and n.value is not None:
+            v = n.value
+            if isinstance(v, ast.Call) and isinstance(v.func, (ast.Name, ast.Attribute)):
+                built.add(v.func.id if isinstance(v.func, ast.Name) else v.func.attr)
+            else:
+                built.add("?")
+    return built.pop() if len(built) == 1 and "?" not in built else None
 
 
 def _byteset(node):
